@@ -50,10 +50,27 @@ func toLower(in []byte) []byte {
 	out := make([]byte, 0, len(in))
 	var buf [4]byte
 	for _, c := range string(in) {
-		i := utf8.EncodeRune(buf[:], unicode.ToLower(c))
+		l := unicode.ToLower(c)
+		if l != c && !simpleFoldEqual(c, l) {
+			// U+0130: its lower case 'i' is not a case variant under simple
+			// folding, which is what the regexp engine and the trigram variants use.
+			l = c
+		}
+		i := utf8.EncodeRune(buf[:], l)
 		out = append(out, buf[:i]...)
 	}
 	return out
+}
+
+// simpleFoldEqual reports whether a and b differ only by case under Unicode
+// simple case folding (the meaning of (?i) in the regexp engine).
+func simpleFoldEqual(a, b rune) bool {
+	for c := unicode.SimpleFold(a); c != a; c = unicode.SimpleFold(c) {
+		if c == b {
+			return true
+		}
+	}
+	return false
 }
 
 // compare 'lower' and 'mixed', where lower is the needle. 'mixed' may
@@ -85,7 +102,7 @@ func caseFoldingEqualsRunes(lower, mixed []byte) (int, bool) {
 		mixed = mixed[msz:]
 		matchTotal += msz
 
-		if lr != unicode.ToLower(mr) {
+		if lr != mr && !simpleFoldEqual(lr, mr) {
 			return 0, false
 		}
 	}
